@@ -192,3 +192,46 @@ def plumbing(parse_fails: bool, b0: bool, b1: bool, b2: bool, b3: bool, b4: bool
     if not anyfault and got != (True, None):
         return xs.fail(f"no evaluation raised but is_valid_expression returned {got!r}", **desc)
     return True
+
+
+# ---------------------------------------------------------------------------------------------------------------------
+# multi-part AHB expressions: an invalid part makes the evaluation raise under EVERY assignment, wherever it stands
+# ---------------------------------------------------------------------------------------------------------------------
+from ahbicht.expressions.ahb_expression_evaluation import evaluate_ahb_expression_tree as _eval_tree
+from ahbicht.expressions.expression_resolver import parse_expression_including_unresolved_subexpressions as _resolve
+
+MULTI = (
+    ("Muss [1] Kann [2] O [501]", False),
+    ("Muss [2] O [501] Kann [1]", False),
+    ("Muss [1] U [2] Soll [1] X [901] Kann [2]", False),
+    ("Muss [1] Soll [2] Kann [1] O [2]", True),
+    ("Muss [1] Soll [2][901] Kann", True),
+    ("Muss [1] Soll [501] O [901] Kann [2]", False),
+)
+M_LO = 0
+M_HI = 1
+
+
+def multi(idx: int, s1: int, s2: int, f: bool, y: int) -> bool:
+    """
+    pre: M_LO <= idx < M_HI and 0 <= s1 < 3 and 0 <= s2 < 3 and 0 <= y <= 1
+    post: _
+    """
+    idx, s1, s2, y = xs.pick(idx, M_LO, M_HI), xs.pick(s1, 0, 3), xs.pick(s2, 0, 3), xs.pick(y, 0, 2)
+    text, valid = MULTI[idx]
+    env.setup(rc={"1": env.STATES[s1], "2": env.STATES[s2]}, fc={"901": f}, hints={"501": "Hinweis 501"}, yc={"1": y})
+    try:
+        tree = detloop.run(_resolve(text))
+        detloop.run(_eval_tree(tree))
+        got = "ok"
+    except InvalidExpressionError:
+        got = "invalid"
+    except Exception as e:  # pylint:disable=broad-except
+        got = f"raised {type(e).__name__}: {e}"
+    xs.reached()
+    st = {"1": env.STATES[s1].name, "2": env.STATES[s2].name}
+    if valid and got != "ok":
+        return xs.fail(f"valid multi-part expression '{text}' under {st}: {got}", idx=idx, s1=s1, s2=s2, f=f, y=y)
+    if not valid and got != "invalid":
+        return xs.fail(f"'{text}' contains a structurally invalid part; evaluation under {st} must raise InvalidExpressionError whatever the states are, got: {got}", idx=idx, s1=s1, s2=s2, f=f, y=y)
+    return True
